@@ -139,6 +139,68 @@ theorem blake_yields_core (h B w : Nat) (hgeo : (B = 512 ∧ w = 32) ∨ (B = 10
          · split <;> split <;> simp only [] <;> omega
          · congr 1; split <;> omega)
 
+/-- every block the BLAKE iterator yields is a whole block -/
+theorem blake_yields_blocklen (h B w : Nat) (hgeo : (B = 512 ∧ w = 32) ∨ (B = 1024 ∧ w = 64)) (hw : Padder.blakeW h = w)
+    (st : PadState) (hpf : st.padflag = false)
+    (m : List Nat) (kw : Option Nat) (L : Nat) (hLdef : kw.getD (8 * m.length) = L) (hL : L ≤ 8 * m.length) :
+    ∀ y ∈ (Padder.iterblocks ⟨.blake h, B⟩ st m kw true).yields, y.1.length = B / 8 := by
+  unfold Padder.iterblocks
+  simp only [hpf, hLdef, Bool.false_eq_true, if_false, Bool.not_true, false_and, if_neg (Nat.not_lt.mpr hL)]
+  generalize hk : Padder.loopCount ⟨.blake h, B⟩ L = k
+  have hkdef : k = if L = 0 then 0 else (L - 1) / B := by rw [← hk]; rfl
+  have hkB : k * B ≤ L ∧ L - k * B ≤ B ∧ (L = 0 → k = 0) ∧ (0 < L → k * B < L) := by
+    rcases hgeo with ⟨rfl, _⟩ | ⟨rfl, _⟩ <;> (split at hkdef <;> omega)
+  have habs : st.bitcnt + L = (match kw.map (st.bitcnt + ·) with
+      | none => (st.bitcnt + k * B) + 8 * (Padder.blockAt ⟨.blake h, B⟩ m k).length
+      | some b => b) := by
+    cases kw with
+    | none =>
+      simp only [Option.getD_none] at hLdef
+      show st.bitcnt + L = (st.bitcnt + k * B) + 8 * (Padder.blockAt ⟨.blake h, B⟩ m k).length
+      rw [blockAt_length]
+      simp only [Padder.blocklen]
+      rcases hgeo with ⟨rfl, _⟩ | ⟨rfl, _⟩ <;> omega
+    | some b => simp only [Option.getD_some] at hLdef; simp [hLdef]
+  obtain ⟨bytes, hok, hlen⟩ := mdLike_blake B w hgeo (.blake h) { st with bitcnt := st.bitcnt + k * B }
+    (Padder.blockAt ⟨.blake h, B⟩ m k) (kw.map (st.bitcnt + ·)) (if h = 256 ∨ h = 512 then 1 else 0) (st.bitcnt + L) habs
+    (by simp only; omega) (by simp only; omega)
+  simp only [Padder.lastblock, hw]
+  simp only [hpf] at hok
+  rw [hok]
+  simp only [Padder.blocklen, List.length_drop, hlen, if_true]
+  have e1 : st.bitcnt + L - (st.bitcnt + k * B) = L - k * B := by omega
+  have e2 : (st.bitcnt + L = st.bitcnt + k * B) ↔ L = k * B := by omega
+  simp only [e1, e2]
+  obtain ⟨hk1, hk2, hk3, hk4⟩ := hkB
+  have hloop : ∀ y ∈ Padder.loopYields ⟨.blake h, B⟩ st m k, y.1.length = B / 8 := by
+    intro y hy
+    simp only [Padder.loopYields, List.mem_map, List.mem_range] at hy
+    obtain ⟨i, hi, rfl⟩ := hy
+    simp only [blockAt_length, Padder.blocklen]
+    rcases hgeo with ⟨rfl, rfl⟩ | ⟨rfl, rfl⟩ <;> omega
+  by_cases hsp : L - k * B + 2 + 2 * w ≤ B
+  · have h0 : ¬ (B / 8 - B / 8 > 0) := by omega
+    simp only [e1, if_pos hsp] at hlen
+    simp only [if_pos hsp, h0, if_false]
+    intro y hy
+    rcases List.mem_append.mp hy with hy | hy
+    · exact hloop y hy
+    · simp only [List.mem_singleton] at hy
+      subst hy
+      simp only [List.length_take, hlen]
+      omega
+  · have h0 : (2 * (B / 8) - B / 8 > 0) := by
+      rcases hgeo with ⟨rfl, rfl⟩ | ⟨rfl, rfl⟩ <;> omega
+    simp only [e1, if_neg hsp] at hlen
+    simp only [if_neg hsp, h0, if_true]
+    intro y hy
+    rcases List.mem_append.mp hy with hy | hy
+    · exact hloop y hy
+    · simp only [List.mem_cons, List.mem_nil_iff, or_false] at hy
+      rcases hy with rfl | rfl
+      · simp only [List.length_take, hlen]; omega
+      · simp only [List.length_drop, hlen]; omega
+
 /-- what a consumer of the null-padding block iterator (BLAKE2) observes -/
 theorem null_yields_core (B : Nat) (hB : B = 512 ∨ B = 1024) (st : PadState) (hpf : st.padflag = false) (m : List Nat) :
     (Padder.iterblocks ⟨.null, B⟩ st m none true).err = none ∧
